@@ -247,10 +247,11 @@ ARG_CONTEXTS = [
 def r6(cx):
     ast = cx.ast
     nrep = 0; nctx = 0
-    for f in ast.file(GEN)["_fns"]:
-        qs = f.macros("quote")
-        if not qs: continue
-        # provenance of the list variables: roots are the vectors generate_anon_struct fills from t.input / t.output
+    allf = ast.file(GEN)["_fns"]
+    ctx = {}
+    def context(f):
+        """(roots, lets, parameter names) of one generator function"""
+        if id(f) in ctx: return ctx[id(f)]
         root = {}
         for e in f.ev("call"):
             if e["text"] == "generate_anon_struct" and len(e["args"]) >= 6:
@@ -267,23 +268,62 @@ def r6(cx):
                 pat = re.sub(r"\b\w+\s*:(?!:)", " ", e["pat"])           # drop `field:` labels
                 for nm2 in re.findall(r"\b[a-z_][a-z0-9_]*\b", pat):
                     if nm2 not in ("mut", "ref", "_"): lets.setdefault(nm2, []).append(e["text"])
-            # a call that mentions t.input / t.output (or self.parm) in its arguments produces lists of that member list
-            for nm3 in lets:
-                pass
-        def classify(name, depth=0, seen=()):
-            out = set()
-            inits = lets.get(name, [])
-            for init in inits:
-                flat = re.sub(r"\s+", "", init)
+        sig = f.sig or ""
+        m = re.search(r"\((.*)\)", sig, flags=re.S)
+        params = []
+        if m:
+            depth = 0; cur = ""
+            for ch in m.group(1):
+                if ch in "<([": depth += 1
+                if ch in ">)]": depth -= 1
+                if ch == "," and depth == 0: params.append(cur); cur = ""
+                else: cur += ch
+            if cur.strip(): params.append(cur)
+            params = [re.sub(r"^\s*(mut\s+)?", "", x).split(":")[0].strip() for x in params]
+            params = [x for x in params if x and "self" not in x.split()]
+        ctx[id(f)] = (root, lets, params)
+        return ctx[id(f)]
+    def classify_in(f, name, depth=0, seen=()):
+        root, lets, params = context(f)
+        out = set()
+        inits = lets.get(name, [])
+        for init in inits:
+            flat = re.sub(r"\s+", "", init)
+            if re.search(r"\bt\.input\b", flat) and not re.search(r"\bt\.output\b", flat): out.add("input"); continue
+            if re.search(r"\bt\.output\b", flat) and not re.search(r"\bt\.input\b", flat): out.add("output"); continue
+            ids = set(re.findall(r"\b[a-z_][a-z0-9_]*\b", re.sub(r'"(?:[^"\\]|\\.)*"', "", init)))
+            for i2 in ids:
+                if i2 in root: out.add(root[i2])
+                elif i2 == name and i2 in params and depth < 6: out |= from_callers(f, i2, depth + 1)
+                elif i2 in lets and i2 not in seen and i2 != name and depth < 6: out |= classify_in(f, i2, depth + 1, seen + (name,))
+                elif i2 in params and i2 not in lets and depth < 6: out |= from_callers(f, i2, depth + 1)
+        if not inits and name in root: out.add(root[name])
+        if not inits and name not in root and name in params and depth < 6: out |= from_callers(f, name, depth + 1)
+        return out
+    def from_callers(f, pname, depth):
+        """a parameter takes its provenance from what every call site passes in that position"""
+        root, lets, params = context(f)
+        pos = params.index(pname)
+        out = set(); ncalls = 0
+        for g in allf:
+            if g is f: continue
+            for e in g.ev("call"):
+                if e["text"].split("::")[-1] != f.name or pos >= len(e["args"]): continue
+                ncalls += 1
+                arg = re.sub(r'"(?:[^"\\]|\\.)*"', "", e["args"][pos])
+                flat = re.sub(r"\s+", "", arg)
                 if re.search(r"\bt\.input\b", flat) and not re.search(r"\bt\.output\b", flat): out.add("input"); continue
                 if re.search(r"\bt\.output\b", flat) and not re.search(r"\bt\.input\b", flat): out.add("output"); continue
-                ids = set(re.findall(r"\b[a-z_][a-z0-9_]*\b", re.sub(r'"(?:[^"\\]|\\.)*"', "", init)))
-                for i2 in ids:
-                    if i2 == name and i2 in root: out.add(root[i2])
-                    elif i2 in root: out.add(root[i2])
-                    elif i2 in lets and i2 not in seen and i2 != name and depth < 6: out |= classify(i2, depth + 1, seen + (name,))
-            if not inits and name in root: out.add(root[name])
-            return out
+                got = set()
+                for i2 in set(re.findall(r"\b[a-z_][a-z0-9_]*\b", arg)):
+                    if i2 in ("mut", "ref", "iter", "as_slice", "as_ref", "clone"): continue
+                    got |= classify_in(g, i2, depth)
+                out |= got or {"unknown"}
+        return out if ncalls else set()
+    for f in allf:
+        qs = f.macros("quote")
+        if not qs: continue
+        classify = lambda name, f=f: classify_in(f, name)
         ordn = {}
         for e in qs:
             for toks in _all_lists(e["tokens"]):
